@@ -34,7 +34,7 @@ import zlib
 from harness.common import framework as fw
 
 PROP = "C02"
-GENERATED = ["WireGen.v"]
+GENERATED = ["WireGen.v", "WriterGen.v", "HttpGen.v"]
 RULE = ("requests and responses are generated from a grammar (methods incl. HEAD/OPTIONS/custom tokens; URL "
         "shapes with escapes/non-ASCII/queries; header sets; cookies; body kinds none/bytes/str/json/form/"
         "multipart/BytesIO/file/async-generator; chunked / compress / Expect: 100-continue; HTTP/1.0 and 1.1; "
@@ -515,7 +515,7 @@ class Bed:
             resp.force_close()
         if kind == "stream":
             if rs.get("content_length"):
-                resp.content_length = len(raw)
+                resp.content_length = max(0, len(raw) - rs.get("cl_short", 0))
             await resp.prepare(request)
             ps = pieces_of(raw, rs.get("pieces") or [len(raw)])
             if not rs.get("no_write"):
@@ -805,7 +805,10 @@ def resp_body_expect(case):
         return gen_text(b["size"], b["seed"]).encode("utf-8")
     if kind == "stream" and rs.get("no_write"):
         return b""
-    return gen_bytes(b["pat"], b["size"], b["seed"])
+    raw = gen_bytes(b["pat"], b["size"], b["seed"])
+    if kind == "stream" and rs.get("content_length") and rs.get("cl_short"):
+        return raw[:max(0, len(raw) - rs["cl_short"])]     # StreamWriter drops what exceeds the declared length
+    return raw
 
 
 def wants_close(case):
@@ -1289,9 +1292,11 @@ def gen_resp(rng, rq):
         r = rng.random()
         if r < 0.25:
             rs["content_length"] = True
+            if rng.random() < 0.25 and b["size"] > 0:
+                rs["cl_short"] = rng.choice((1, 1, 2, b["size"]))
         elif r < 0.45 and rq.get("version") != "1.0":
             rs["chunked"] = True
-        if rng.random() < 0.2:
+        if rng.random() < 0.2 and not rs.get("cl_short"):
             rs["eof_with_data"] = True
         elif rng.random() < 0.3:
             rs["explicit_eof"] = True
